@@ -63,17 +63,25 @@ ByteToCharExpected(st, a) ==
     ELSE LET cr == ContainerRange(st, a.c) IN ByteToChar(Sub(st.res[cr[1]].text, cr[2], cr[3]), a.p)
 
 ----------------------------------------------------------------------------
-(* C07: a = [c, op, needle, chars]  answer [ok, ranges]                      *)
+(* C07: a = [c, op, needle, pat, frags]  answer [ok, ranges, groups]         *)
+(*   find / nocase / split: needle;  trim: needle is the set of characters;   *)
+(*   regex: pat (see StamText);  sequence / sequence_nocase: frags, needle is  *)
+(*   the set of characters that may be skipped;  segmentation: nothing         *)
+TextOpAnswer(ok, ranges, groups) == [ok |-> ok, ranges |-> ranges, groups |-> groups]
 TextOpExpected(st, a) ==
-    IF ~ContainerOK(st, a.c) THEN [ok |-> FALSE, ranges |-> <<>>]
+    IF ~ContainerOK(st, a.c) THEN TextOpAnswer(FALSE, <<>>, <<>>)
     ELSE LET cr == ContainerRange(st, a.c)
              t == st.res[cr[1]].text
-         IN CASE a.op = "find"   -> [ok |-> TRUE, ranges |-> FindAll(t, cr[2], cr[3], a.needle)]
-              [] a.op = "nocase" -> [ok |-> TRUE, ranges |-> FindAllNoCase(t, cr[2], cr[3], a.needle)]
-              [] a.op = "split"  -> [ok |-> TRUE, ranges |-> Split(t, cr[2], cr[3], a.needle)]
-              [] a.op = "trim"   -> [ok |-> TRUE, ranges |-> << Trim(t, cr[2], cr[3], Range(a.needle)) >>]
-              [] a.op = "segmentation" -> [ok |-> TRUE, ranges |-> Segmentation(st.res[cr[1]].tsel, cr[2], cr[3])]
-              [] OTHER -> [ok |-> FALSE, ranges |-> <<>>]
+         IN CASE a.op = "find"   -> TextOpAnswer(TRUE, FindAll(t, cr[2], cr[3], a.needle), <<>>)
+              [] a.op = "nocase" -> TextOpAnswer(TRUE, FindAllNoCase(t, cr[2], cr[3], a.needle), <<>>)
+              [] a.op = "split"  -> TextOpAnswer(TRUE, Split(t, cr[2], cr[3], a.needle), <<>>)
+              [] a.op = "trim"   -> TextOpAnswer(TRUE, << Trim(t, cr[2], cr[3], Range(a.needle)) >>, <<>>)
+              [] a.op = "segmentation" -> TextOpAnswer(TRUE, Segmentation(st.res[cr[1]].tsel, cr[2], cr[3]), <<>>)
+              [] a.op = "regex"  -> LET r == RegexAll(t, cr[2], cr[3], a.pat) IN TextOpAnswer(TRUE, r.ranges, r.groups)
+              [] a.op \in {"sequence", "sequence_nocase"} ->
+                    LET r == SeqFrom(t, cr[2], cr[3], a.frags, Range(a.needle), a.op = "sequence_nocase")
+                    IN TextOpAnswer(r.ok, r.ranges, <<>>)
+              [] OTHER -> TextOpAnswer(FALSE, <<>>, <<>>)
 
 ----------------------------------------------------------------------------
 (* C13: relation test between two sets of ranges of one resource            *)
@@ -120,6 +128,14 @@ TestRelationExpected(st, a) ==
     IN IF r = 0 \/ a.A = <<>> \/ a.B = <<>> THEN [ok |-> FALSE, v |-> FALSE]
        ELSE [ok |-> TRUE, v |-> SetTest(a.o, Range(a.A), Range(a.B), st.res[r].text)]
 
+(* C13, table form: one reference set A against a sequence of sets Bs: a = [res, A, Bs, o]; answer [ok, v] where   *)
+(* v[i] is "T" or "F" (the harness logs "P" for a panic in that cell, which no expectation contains)            *)
+TestRelationRowExpected(st, a) ==
+    LET r == ResolveRes(st, a.res)
+    IN IF r = 0 \/ a.A = <<>> THEN [ok |-> FALSE, v |-> <<>>]
+       ELSE [ok |-> TRUE,
+             v |-> [i \in DOMAIN a.Bs |-> IF SetTest(a.o, Range(a.A), Range(a.Bs[i]), st.res[r].text) THEN "T" ELSE "F"]]
+
 (* C06: related text: the known selections of the resource in relation o with the reference set   *)
 (*      a = [res: ref, A: seq of ranges (the reference), o]                                        *)
 (*      answer: the known selections t (as ranges, textual order, each once) with                  *)
@@ -138,8 +154,28 @@ RelatedTextExpected(st, a) ==
        ELSE LET known == Range(st.res[r].tsel)
                 ref == Range(a.A)
                 hits == {t \in known : SetTest(a.o, ref, {t}, st.res[r].text)}
-                res == IF a.o.op = "Equals" /\ ~a.o.negate THEN hits ELSE hits \ ref
+                \* "only the equality relation also returns the reference selection itself": for a reference of several
+                \* selections that is the reference's own selections, provided all of them are known
+                res == IF a.o.op = "Equals" /\ ~a.o.negate
+                       THEN IF Cardinality(ref) = 1 THEN hits ELSE IF ref \subseteq known THEN ref ELSE {}
+                       ELSE hits \ ref
             IN [ok |-> TRUE, ranges |-> SortRanges(res)]
+
+(* C06, table form: one reference against a sequence of operators: a = [res, via, A, ann, os]                     *)
+(*   via = "sel": the reference is the set of ranges A (a single selection, bound or not, or a set)               *)
+(*   via = "ann": the reference is the text of annotation `ann` (all on resource res)                             *)
+RelatedRowRef(st, a) ==
+    IF a.via = "ann"
+    THEN LET x == ResolveAnn(st, a.ann)
+         IN IF x = 0 THEN <<>> ELSE LET tx == AnnText(st, x) IN [i \in DOMAIN tx |-> <<tx[i][2], tx[i][3]>>]
+    ELSE a.A
+
+RelatedRowExpected(st, a) ==
+    LET r == ResolveRes(st, a.res)
+        ref == RelatedRowRef(st, a)
+    IN IF r = 0 \/ ref = <<>> THEN [ok |-> FALSE, rows |-> <<>>]
+       ELSE [ok |-> TRUE,
+             rows |-> [i \in DOMAIN a.os |-> RelatedTextExpected(st, [res |-> a.res, A |-> ref, o |-> a.os[i]]).ranges]]
 
 ----------------------------------------------------------------------------
 ReadExpected(st, ev, a) ==
@@ -151,14 +187,35 @@ ReadExpected(st, ev, a) ==
       [] ev = "TextOp"       -> TextOpExpected(st, a)
       [] ev = "TestRelation" -> TestRelationExpected(st, a)
       [] ev = "RelatedText"  -> RelatedTextExpected(st, a)
+      [] ev = "TestRelationRow" -> TestRelationRowExpected(st, a)
+      [] ev = "RelatedRow"   -> RelatedRowExpected(st, a)
       [] OTHER -> [ok |-> FALSE, unknown |-> ev]
 
 \* how an answer is compared with the expectation (equality, except where the specification leaves a detail open)
-ReadMatches(ev, a, exp, got) ==
+ReadMatches(st, ev, a, exp, got) ==
     IF ev = "TextOp" /\ a.op = "trim" /\ exp.ok /\ exp.ranges[1][1] = exp.ranges[1][2]
     THEN \* everything trimmed away: any empty selection inside the container is acceptable
          got.ok /\ Len(got.ranges) = 1 /\ got.ranges[1][1] = got.ranges[1][2]
+    ELSE IF ev = "TextOp" /\ a.op \in {"sequence", "sequence_nocase"} /\ ContainerOK(st, a.c)
+    THEN \* the documentation does not fix the search strategy: a reported match must be a valid one, and "no match"
+         \* is only acceptable when the first-occurrence strategy finds none
+         LET cr == ContainerRange(st, a.c)
+         IN IF got.ok THEN SeqValid(st.res[cr[1]].text, cr[2], cr[3], a.frags, Range(a.needle), a.op = "sequence_nocase", got.ranges)
+            ELSE ~exp.ok
+    ELSE IF ev = "RelatedText"
+    THEN \* C06 promises the exact set, each selection once; the order of the results is not part of the statement
+         got.ok = exp.ok /\ NoDup(got.ranges) /\ Range(got.ranges) = Range(exp.ranges)
+    ELSE IF ev = "RelatedRow"
+    THEN /\ got.ok = exp.ok /\ Len(got.rows) = Len(exp.rows)
+         /\ \A i \in DOMAIN exp.rows :
+              /\ NoDup(got.rows[i])
+              /\ \/ Range(got.rows[i]) = Range(exp.rows[i])
+                 \* Equals from a reference of several selections of which some are not known: the statement does not
+                 \* say whether the known part of the reference is returned
+                 \/ /\ a.os[i].op = "Equals" /\ ~a.os[i].negate /\ a.via = "sel" /\ Len(a.A) > 1
+                    /\ Range(got.rows[i]) \subseteq Range(a.A)
     ELSE got = exp
 
-ReadEvents == {"TextSel", "AnnTextOf", "OffsetReport", "Utf8Byte", "ByteToChar", "TextOp", "TestRelation", "RelatedText"}
+ReadEvents == {"TextSel", "AnnTextOf", "OffsetReport", "Utf8Byte", "ByteToChar", "TextOp", "TestRelation", "RelatedText",
+               "TestRelationRow", "RelatedRow"}
 =============================================================================
